@@ -361,7 +361,7 @@ func (h *history) queries() {
 	mx := h.rng.Intn(7)
 	hdrs, rem, err := h.n.CM.Headers(types.ChainIndex{Height: nd.Height, ID: nd.Block.ID()}, uint64(mx))
 	qe := emptyEv("Hdrs")
-	qe.B, qe.Max, qe.Err, qe.From = nd.ID, mx, "ok", int(rem)
+	qe.B, qe.Max, qe.Err, qe.From = nd.Alias, mx, "ok", int(rem) // queries name IDs
 	if err != nil {
 		qe.Err = "notbest"
 	}
@@ -374,7 +374,7 @@ func (h *history) queries() {
 	for i := 0; i < 1+h.rng.Intn(4); i++ {
 		x := h.t.Node(1 + h.rng.Intn(len(h.t.Nodes)))
 		hs = append(hs, x.Block.ID())
-		be.Rus = append(be.Rus, x.ID)
+		be.Rus = append(be.Rus, x.Alias)
 	}
 	mx = h.rng.Intn(6)
 	blocks, rem, err := h.n.CM.BlocksForHistory(hs, uint64(mx))
@@ -428,7 +428,7 @@ func (h *history) crash() {
 	}
 	snap := h.n.DB.Snaps[len(h.n.DB.Snaps)-1]
 	h.notif += h.n.Notifs
-	nn, err := OpenNode(h.t.W, CopyDB(snap), true)
+	nn, err := h.n.Reopen(snap, true)
 	h.tw.Emit(emptyEv("Crash"))
 	if err != nil {
 		h.mismatch("driver:c03:reopen", fmt.Sprintf("committed image does not reopen: %v", err))
@@ -449,7 +449,7 @@ func (h *history) crash() {
 // up with all blocks of the tree.
 func (h *history) auditSnapshots(all []int, uniqueBest int) {
 	for si, snap := range h.n.DB.Snaps {
-		nn, err := OpenNode(h.t.W, CopyDB(snap), false)
+		nn, err := h.n.Reopen(snap, false)
 		if err != nil {
 			h.mismatch("driver:c03:reopen", fmt.Sprintf("commit %d does not reopen: %v", si, err))
 			continue
@@ -538,7 +538,7 @@ func TestDriver(t *testing.T) {
 		rng := rand.New(rand.NewSource(seed))
 		reg := [][3]uint64{{1000, 1010, 1020}, {8, 14, 18}, {1, 1, 1}, {5, 6, 7}}[rng.Intn(4)]
 		spec := TreeSpec{Seed: seed, Allow: reg[0], Require: reg[1], Final: reg[2], Blocks: minB + rng.Intn(maxB-minB+1), Warmup: 3,
-			MaxLeaves: 4, BadBlocks: 4, OpsPerBlk: 3, ForkProb: 0.18, UniqueWindows: mode != "ledger"}
+			MaxLeaves: 4, BadBlocks: 4, OpsPerBlk: 3, ForkProb: 0.18, UniqueWindows: mode != "ledger", RandTwins: 3}
 		if hi >= nHist {
 			// total work diverging from chain length: the tip must move to the sufficiently heavier
 			// branch although it is SHORTER (the weight gate compares work, not height)
@@ -548,10 +548,17 @@ func TestDriver(t *testing.T) {
 		tj, nm := tr.Abstract()
 		s := sh[hi%shards]
 		s.trees = append(s.trees, tj)
-		h := &history{t: tr, nm: nm, tj: tj, ti: len(s.trees), n: NewNode(tr.W, true), ids: map[types.BlockID]int{}, subs: map[string]*shadow{},
+		// C03: the store must be durable-consistent on a write-back cache too (chain.CacheDB over the
+		// database: what survives the process is the database, not what the cache shows)
+		backend := "mem"
+		if mode == "durable" && hi%2 == 1 {
+			backend = "cache"
+			res.Count("histories_on_cachedb", 1)
+		}
+		h := &history{t: tr, nm: nm, tj: tj, ti: len(s.trees), n: NewNodeOn(tr.W, backend, true), ids: map[types.BlockID]int{}, subs: map[string]*shadow{},
 			tw: s.tw, res: res, rng: rng, seed: seed, mode: mode}
 		for _, nd := range tr.Nodes {
-			h.ids[nd.Block.ID()] = nd.ID
+			h.ids[nd.Block.ID()] = nd.Alias
 		}
 		for _, k := range []string{"s1", "s2", "s3"} {
 			h.subs[k] = newShadow()
@@ -566,7 +573,31 @@ func TestDriver(t *testing.T) {
 		// (parents first) with orphans-first swaps, duplicates and mixed-branch batches
 		var order []int
 		for id := 2; id <= len(tr.Nodes); id++ {
-			order = append(order, id)
+			if tr.Node(id).Alias == id {
+				order = append(order, id)
+			}
+		}
+		// ID twins (another body for a known ID): mostly offered BEFORE the honest body (the poisoned
+		// body is stored first and must be healed), sometimes right after it or much later
+		for _, nd := range tr.Nodes {
+			if nd.Alias == nd.ID {
+				continue
+			}
+			pos := 0
+			for i, id := range order {
+				if id == nd.Alias {
+					pos = i
+				}
+			}
+			switch x := rng.Float64(); {
+			case x < 0.6:
+			case x < 0.8:
+				pos++
+			default:
+				pos += 1 + rng.Intn(len(order)-pos)
+			}
+			order = append(order[:pos], append([]int{nd.ID}, order[pos:]...)...)
+			res.Count("id_twins", 1)
 		}
 		for i := range order {
 			if hi >= nHist {
